@@ -653,15 +653,7 @@ func lightMedium(c *Ctx, prop string, undo bool) {
 // family): Base in {2^k-1, 2^k, 2^k+1 : k in 5, 31, 32, 62} plus 2^63-1, so that update data,
 // cached proofs and their undo are exercised at rows 5..63.
 func lightBases(c *Ctx, prop string, nmax, undo int) {
-	var bases []uint64
-	for _, k := range []uint{5, 31, 32, 62} {
-		b := uint64(1) << k
-		bases = append(bases, b-1, b, b+1)
-	}
-	bases = append(bases, uint64(1)<<63-1, uint64(1)<<63-4)
-	if !c.Thorough() {
-		bases = []uint64{31, 32, 1<<31 - 1, 1 << 32, 1<<62 + 1, 1<<63 - 4}
-	}
+	bases := offsetBases(c.Thorough())
 	c.Cov.Bound["offset_start.bases"] = fmt.Sprint(bases)
 	c.Cov.Bound["offset_start.Nmax"] = nmax
 	for _, b := range bases {
